@@ -352,12 +352,24 @@ def s_nonce_sep():
             nd, nz = ((d ^ (1 << bit)) % (n - 1)) + 1, z
         elif rel == "d-other":
             nd, nz = d2, z
+        elif rel in ("z+k*hashmod", "d+k*hashmod", "z+k*2^w"):
+            # pairs that differ by a multiple of the modulus CPython's hash() reduces integers by (2^61 - 1; 2^31 - 1 on
+            # 32-bit builds), or agree in their low 64 / 128 bits: distinct inputs that collide as hashed or truncated keys
+            m = [2**61 - 1, 2**61 - 1, 2**31 - 1][bit % 3] if rel != "z+k*2^w" else [2**64, 2**128, 2**32][bit % 3]
+            k = 1 + (d2 % 50000)
+            if rel == "d+k*hashmod":
+                nd = d + k * m if d + k * m < n else d - k * m
+                nd, nz = (nd if 1 <= nd < n else d % (n - 1) + 1), z
+            else:
+                nz = z + k * m if z + k * m <= top else z - k * m
+                nd, nz = d, (nz if 1 <= nz <= top else z ^ 1 or 2)
         else:  # swap roles: (d, z) vs (z mod, d)
             nd, nz = z % (n - 1) + 1, d
         return {"curve": cv, "d": d, "z": z, "d2": nd, "z2": nz, "rel": rel}
     return st.sampled_from(["k1", "r1"]).flatmap(lambda cv: st.builds(
         mk, st.just(cv), ecgen.scalars(REF[cv].n), ecgen.hashes(REF[cv].n),
-        st.sampled_from(["z+1", "z-bitflip", "z+n", "z-other", "d+1", "d-bitflip", "d-other", "swap"]),
+        st.sampled_from(["z+1", "z-bitflip", "z+n", "z-other", "d+1", "d-bitflip", "d-other", "swap", "z+k*hashmod", "z+k*hashmod",
+                         "d+k*hashmod", "z+k*2^w"]),
         st.integers(0, 255), ecgen.scalars(REF[cv].n), ecgen.hashes(REF[cv].n)))
 
 
